@@ -126,7 +126,7 @@ def judge(items, truth, out):
 def run(res, proofs_ok, proofs_why, only=None):
     rng = random.Random(res.seed * 65521 + 1)
     binary = c.build_harness("debug")[0]
-    worlds = [gen_world(rng) for _ in range(150 if res.tier == "quick" else 4000)]
+    worlds = [gen_world(rng) for _ in range(150 if res.tier == "quick" else 20000)]
     lines = [line_of(w[0], w[1], w[2]) for w in worlds]
     impl = c.run_lines_in_namespace(binary, lines, timeout=3000)
     model = c.run_model(lines)
